@@ -207,6 +207,46 @@ fn fuzz_type<C: Suite, T: Wire<C>>(vals: &[T], ctx: &mut Ctx, k: &mut usize, wan
             guarded(ctx, &what, m.as_bytes(), || T::from_json(&m).is_ok());
             ctx.count("json_decodes");
         }
+        // text members (the ciphersuite name, hex strings) with a multi-byte character at every byte offset, with and without
+        // the rest of the original: anything that cuts or compares such a string at a byte position must not panic
+        if let Some(serde_json::Value::Object(obj)) = jseeds.first().and_then(|s| serde_json::from_str::<serde_json::Value>(s).ok()) {
+            let mut texts: Vec<(Vec<String>, String)> = vec![];
+            fn walk(v: &serde_json::Value, path: Vec<String>, out: &mut Vec<(Vec<String>, String)>) {
+                match v {
+                    serde_json::Value::String(s) => out.push((path, s.clone())),
+                    serde_json::Value::Object(m) => {
+                        for (k, x) in m {
+                            let mut p2 = path.clone();
+                            p2.push(k.clone());
+                            walk(x, p2, out);
+                        }
+                    }
+                    _ => {}
+                }
+            }
+            walk(&serde_json::Value::Object(obj.clone()), vec![], &mut texts);
+            for (path, text) in texts.iter().take(3) {
+                let text = if text.len() > 48 { &text[..48] } else { &text[..] };
+                for ch in ["\u{e9}", "\u{20ac}", "\u{1f600}"] {
+                    for pos in 0..=text.len() {
+                        if !text.is_char_boundary(pos) {
+                            continue;
+                        }
+                        for variant in [format!("{}{ch}{}", &text[..pos], &text[pos..]), format!("{}{ch}", &text[..pos]), format!("{}{ch}{}", &text[..pos], &text[(pos + 1).min(text.len())..])] {
+                            let mut v = serde_json::Value::Object(obj.clone());
+                            let mut slot = &mut v;
+                            for k in path {
+                                slot = &mut slot[k.as_str()];
+                            }
+                            *slot = serde_json::Value::String(variant);
+                            let m = v.to_string();
+                            guarded(ctx, &what, m.as_bytes(), || T::from_json(&m).is_ok());
+                            ctx.count("json_decodes");
+                        }
+                    }
+                }
+            }
+        }
     }
     ctx.class(format!("decode/{}", T::NAME));
     if ctx.samples.len() < 2 {
